@@ -231,6 +231,22 @@ fn linearise(prog: &[Vec<DOp>], log: &[(usize, usize, String)]) -> Option<String
     None
 }
 
+/// Hand-written programs: every compound operation (check-then-act inside the map) racing with
+/// writers of the same key that can change what the check saw.
+pub fn corpus() -> Vec<(&'static str, Vec<Vec<DOp>>)> {
+    use DOp::*;
+    vec![
+        ("remove_if-vs-insert", vec![vec![Insert(0, 1), RemoveIfOdd(0), Get(0)], vec![Insert(0, 2), Get(0)]]),
+        ("remove_if-vs-iter_mut", vec![vec![Insert(0, 1), RemoveIfOdd(0), Get(0)], vec![IterMutAdd, Get(0)]]),
+        ("remove_if-vs-hold_mut", vec![vec![Insert(0, 1), Insert(1, 3), RemoveIfOdd(0), Len], vec![HoldMut(0), RemoveIfOdd(1)], vec![IterMutAdd]]),
+        ("entry-vs-remove", vec![vec![Insert(0, 4), EntryOrInsert(0, 7), Get(0)], vec![Remove(0), EntryModifyOrInsert(0, 3)]]),
+        ("alter-vs-insert-remove", vec![vec![Insert(1, 1), Alter(1), Get(1)], vec![Insert(1, 5), Remove(1), Alter(1)]]),
+        ("retain-vs-insert", vec![vec![Insert(0, 1), Insert(1, 2), RetainEven, Len], vec![Insert(2, 3), Insert(0, 4), IterSum]]),
+        ("clear-vs-entry", vec![vec![Insert(0, 2), Clear, Len], vec![EntryOrInsert(0, 7), EntryModifyOrInsert(1, 3), Len]]),
+        ("set-ops", vec![vec![SetInsert(0), SetRemove(0), SetLen], vec![SetInsert(0), SetContains(0), SetRemove(0)]]),
+    ]
+}
+
 pub fn gen_prog(rng: &mut Rng, size: usize) -> Vec<Vec<DOp>> {
     let nt = rng.range(2, 2 + size.min(2));
     (0..nt)
